@@ -223,3 +223,86 @@ def find_connect(view, src=None, dst=None):
             if (src is None or key(l.value) == src) and (dst is None or key(l.target) == dst):
                 r.append(l)
     return r
+
+
+def eval3(t, env):
+    """Three-valued evaluation of a boolean term under partial knowledge env {key: bool}; None = unknown."""
+    a, p = literal(t)
+    k = key(a)
+    if k in env:
+        v = env[k]
+        return v if p else (not v)
+    if isinstance(a, Const) and isinstance(a.v, (int, bool)):
+        v = bool(a.v)
+        return v if p else (not v)
+    if isinstance(a, Op) and a.op in ("&", "and"):
+        vals = [eval3(x, env) for x in a.args]
+        r = False if any(v is False for v in vals) else (True if all(v is True for v in vals) else None)
+    elif isinstance(a, Op) and a.op in ("|", "or"):
+        vals = [eval3(x, env) for x in a.args]
+        r = True if any(v is True for v in vals) else (False if all(v is False for v in vals) else None)
+    else:
+        r = None
+    if r is None:
+        return None
+    return r if p else (not r)
+
+
+def leaf_fires(view, leaf, env):
+    """True / False / None: does the leaf's guard hold under env?"""
+    res = True
+    for c, p in leaf.guards:
+        v = eval3(c, env)
+        if v is None:
+            res = None if res is not False else False
+        elif v != p:
+            return False
+    return res
+
+
+def is_pulse(view, sig, depth=0, seen=None):
+    """Is `sig` provably self-clearing (high for one cycle only, regardless of its consumers)?
+    (a) register with an unconditional default-0 assignment followed by conditional sets;
+    (b) comb conjunction containing a pulse;
+    (c) comb test `C == 0` of a counter C that is reloaded (to a non-zero value) by a leaf that
+        definitely fires whenever the test is true."""
+    seen = seen or set()
+    k = key(sig)
+    if k in seen or depth > 6:
+        return False
+    seen = seen | {k}
+    ds = view.drivers(sig)
+    if not ds:
+        return False
+    if all(d.domain.startswith("sync") for d in ds):
+        zero_default = [d for d in ds if is0(d.value) and not d.guards]
+        if zero_default and all(d.order >= zero_default[0].order for d in ds):
+            return True
+        # timeline-driven done flags: default 0 each cycle, set inside a timeline event
+        return False
+    v = view.single_comb_def(sig)
+    if v is None:
+        return False
+    for a, p in conj(v):
+        if p and isinstance(a, (Obj, Sym)) and is_pulse(view, a, depth + 1, seen):
+            return True
+    lits = conj(v)
+    if len(lits) == 1:
+        a, p = lits[0]
+        # literal() turns C == 0 into (C, False)
+        if (not p) and isinstance(a, (Obj, Sym)):
+            env = {k: True, key(a): False}
+            # propagate aliases: any signal whose single comb def is `sig`
+            for kk, dd in view.defs.items():
+                if len(dd) == 1 and dd[0].domain == "comb" and not dd[0].guards and key(dd[0].value) == k:
+                    env[kk] = True
+            for d in view.drivers(a):
+                if d.domain.startswith("sync") and leaf_fires(view, d, env) is True:
+                    l = lin(d.value)
+                    if l is not None and not (l.is_const() and l.constval() == 0) and key(a) not in support_keys(d.value):
+                        return True
+    return False
+
+
+def support_keys(t):
+    return {s for s in support(t)}
